@@ -68,7 +68,7 @@ def sec_threshold_predicate(rep):
 
     rep.under_contract(NCB.__init__, NCB.decorator, NCB.is_below_pair_threshold)
     sy = H.Sy(extra="z")
-    pre = [sy.x > 0, sy.x < 1, sy.z > 0, sy.z < 1, sy.Q2 > 0, sy.m2c > 0]
+    pre = [sy.x > 0, sy.x <= 1, sy.z > 0, sy.z < 1, sy.Q2 > 0, sy.m2c > 0]
 
     def case(sy):
         cfg = H.make_configs(sy, process="NC", scheme="FFNS", nf_ff=3, pto=1)
@@ -90,7 +90,7 @@ def sec_decorator(rep):
     sy = H.Sy(extra="z")
     nc, cc, errors = heavy_nc_classes()
     rep.add(ob_eval("C09/module-scan-complete", not errors and len(nc) > 10, detail=f"{len(nc)} NC classes; errors={errors}"))
-    pre = [sy.x > 0, sy.x < 1, sy.Q2 > 0, sy.m2c > 0]
+    pre = [sy.x > 0, sy.x <= 1, sy.Q2 > 0, sy.m2c > 0]
     for cls in sorted(nc, key=lambda c: (c.__module__, c.__name__)):
         mod = importlib.import_module(cls.__module__)
         kind = KINDMAP[cls.__module__.split(".")[-1].split("_")[0]]
@@ -166,7 +166,7 @@ def sec_closures(rep):
 
     sy = H.Sy(extra="z")
     nc, cc, errors = heavy_nc_classes()
-    pre = [sy.x > 0, sy.x < 1, sy.z > 0, sy.z < 1, sy.Q2 > 0, sy.m2c > 0, Not(below(sy, sy.x, sy.m2c))]
+    pre = [sy.x > 0, sy.x <= 1, sy.z > 0, sy.z < 1, sy.Q2 > 0, sy.m2c > 0, Not(below(sy, sy.x, sy.m2c))]
     n_closures = 0
     for cls in sorted(nc, key=lambda c: (c.__module__, c.__name__)):
         mod = importlib.import_module(cls.__module__)
@@ -213,7 +213,7 @@ def sec_cc(rep):
     rep.under_contract(CCB.__init__, CCB.convolution_point, conv.convolution)
     sy = H.Sy(extra="c")
     nc, cc, errors = heavy_nc_classes()
-    pre = [sy.x > 0, sy.x < 1, sy.Q2 > 0, sy.m2c > 0]
+    pre = [sy.x > 0, sy.x <= 1, sy.Q2 > 0, sy.m2c > 0]
     eps = conv.eps_integration_border
 
     def no_quad(*a, **k):
@@ -260,7 +260,7 @@ def sec_generator_masses(rep):
 
     rep.under_contract(heavy.kernels.generate, heavy.kernels.generate_missing, intrinsic.kernels.generate, asy.kernels.generate_missing_asy, asy.kernels.generate_heavy_asy, asy.kernels.generate_intrinsic_asy)
     sy = H.Sy(extra="z")
-    pre = [sy.x > 0, sy.x < 1, sy.Q2 > 0] + sy.mass_pre()
+    pre = [sy.x > 0, sy.x <= 1, sy.Q2 > 0] + sy.mass_pre()
     masses = {4: "m2c", 5: "m2b", 6: "m2t"}
     gens = {
         "heavy.generate": lambda esf, nf, ihq: heavy.kernels.generate(esf, nf, ihq),
@@ -312,7 +312,7 @@ def sec_cc_argument_only(rep):
 
     sy = H.Sy(extra="z")
     nc, cc, errors = heavy_nc_classes()
-    pre = [sy.x > 0, sy.x < 1, sy.z > 0, sy.z < 1, sy.Q2 > 0, sy.m2c > 0]
+    pre = [sy.x > 0, sy.x <= 1, sy.z > 0, sy.z < 1, sy.Q2 > 0, sy.m2c > 0]
     for cls in sorted(cc, key=lambda c: (c.__module__, c.__name__)):
         kind = KINDMAP[cls.__module__.split(".")[-1].split("_")[0]]
         for order in (0, 1):
@@ -355,7 +355,7 @@ def sec_selfcheck(rep, seed):
 
     sy = H.Sy(extra="z")
     scratch = Report(rep.pid, rep.tier, seed)
-    pre = [sy.x > 0, sy.x < 1, sy.z > 0, sy.z < 1, sy.Q2 > 0, sy.m2c > 0]
+    pre = [sy.x > 0, sy.x <= 1, sy.z > 0, sy.z < 1, sy.Q2 > 0, sy.m2c > 0]
 
     def case(sy):
         cfg = H.make_configs(sy, process="NC", scheme="FFNS", nf_ff=3, pto=1)
